@@ -46,6 +46,7 @@ func DefaultCfg() Cfg {
 
 // G generates one module.
 type G struct {
+	adv  *AdvNames
 	rt   *rapid.T
 	cfg  Cfg
 	M    *am.Module
